@@ -263,6 +263,10 @@ func C03(c *Ctx, r *report.Run) error {
 				} else if normTemplate(a.Template) != normTemplate(b.Template) {
 					r.Violate(cellBase+"#"+pair, "path_differs("+pair+")", fmt.Sprintf("%s: %s %s | %s: %s %s", names[i], a.Verb, a.Template, names[j], b.Verb, b.Template), replay)
 					r.Case(cellBase, "path_differs", true)
+				} else if pair == "ts-server~openapi" && a.Template != b.Template {
+					// both publish the declared template: the variables must carry the same names too (a variable's name is what binds it to a field)
+					r.Violate(cellBase+"#"+pair, "path_variable_names_differ("+pair+")", fmt.Sprintf("%s: %s %s | %s: %s %s", names[i], a.Verb, a.Template, names[j], b.Verb, b.Template), replay)
+					r.Case(cellBase, "path_variable_names_differ", true)
 				} else {
 					r.Case(cellBase, "verb_and_path_agree:"+pair, true)
 				}
